@@ -100,6 +100,25 @@ pub fn c04() -> Vec<Item> {
     v
 }
 
+/// C16 on the real multi-threaded executor: models whose init sends to their neighbours.
+pub fn c16() -> Vec<Item> {
+    let fams = props::c16("quick");
+    let mut v = vec![];
+    for (label, threads, bq, bt) in [("flat2/cap1/v0", 2usize, 2usize, 3usize), ("flat3/cap1/v1", 2, 2, 3), ("depth1x2/cap2/v2", 2, 2, 3), ("flat3/cap2/v0", 3, 1, 2)] {
+        let sc = find(&fams, "hierarchies", label);
+        v.push(sim_item(
+            format!("sim/{}/{}w", label, threads),
+            sc,
+            threads,
+            &["init_twice", "init_late", "init_foreign", "init_missing", "before_init", "delivery_lost", "delivery_dup", "half_handler", "pending_send", "report_exact", "error_class"],
+            false,
+            bq,
+            bt,
+        ));
+    }
+    v
+}
+
 pub fn c05() -> Vec<Item> {
     let fams = props::c05("quick");
     let mut v = vec![];
